@@ -296,3 +296,29 @@ Definition C20_mod_merge_theorems := (C20_mod, C20_fmod, C20_merge_raises, C20_m
 Print Assumptions C20_mod_merge_theorems.
 Definition C20_implicit_theorems := (C20_implicit_components, C20_implicit_derivative_at_solution, C20_implicit_solution, C20_implicit_components_are_partials, C20_implicit_derivative_is_partial, C20_implicit_empty_range_raises, C20_implicit_no_sign_change_raises, C20_implicit_root_at_lower_end, C20_implicit_root_at_upper_end, C20_implicit_nonvacuous).
 Print Assumptions C20_implicit_theorems.
+
+(* ---------- x % y and fmod(x, y): "the components of x unchanged" IS the chain rule ----------
+   away from the multiples of y both remainders are differentiable in x with derivative 1; hence
+   for x = A(t) the derivative of the remainder with respect to t is dA/dt (C02's statement for
+   these two operators). *)
+From Coquelicot Require Import Coquelicot.
+From GTCV Require Import ModDerivative.
+
+Theorem C20_mod_derivative_is_one :
+  forall (y x0 : R), y <> 0 -> floor_R (x0 / y) <> x0 / y ->
+    is_derive (fun x => x - y * floor_R (x / y)) x0 1.
+Proof. exact pymod_derivative. Qed.
+Print Assumptions C20_mod_derivative_is_one.
+
+Theorem C20_fmod_derivative_is_one :
+  forall (y x0 : R), y <> 0 -> trunc_R (x0 / y) <> x0 / y ->
+    is_derive (fun x => x - y * trunc_R (x / y)) x0 1.
+Proof. exact fmod_derivative. Qed.
+Print Assumptions C20_fmod_derivative_is_one.
+
+Theorem C20_remainder_chain_rule :
+  forall (A : R -> R) (t0 da y : R), y <> 0 -> is_derive A t0 da ->
+    (floor_R (A t0 / y) <> A t0 / y -> is_derive (fun t => A t - y * floor_R (A t / y)) t0 da) /\
+    (trunc_R (A t0 / y) <> A t0 / y -> is_derive (fun t => A t - y * trunc_R (A t / y)) t0 da).
+Proof. exact remainder_chain_rule. Qed.
+Print Assumptions C20_remainder_chain_rule.
